@@ -671,18 +671,7 @@ Proof.
     eapply slot_idx_in. apply (sd_in sl). exact Es.
 Qed.
 
-(* ---------- the side conditions that remain hypotheses ---------- *)
-(* no included per-invocation provider is placed before the invoke function (always so without
-   Reorder: see runs_after_invoke_no_reorder) *)
-Definition runs_after_invoke (pl : plan) : bool :=
-  forallb (fun p => negb (p_include p && (group_eqb (p_group p) GRun || group_eqb (p_group p) GFinal)))
-          (firstn (pl_invokeIndex pl) (pl_funcs pl)).
-
-(* the values the init function returns have slots (trivially so without an init function) *)
-Definition init_covered (pl : plan) : bool :=
-  forallb (fun p => negb (p_include p && class_eqb (p_class p) ClInit) ||
-                    forallb (fun t => is_some (sd_of (pl_slots pl) (remap (p_bypassR p) t))) (pflow p FBypass))
-          (pl_funcs pl).
+(* the side conditions that remain hypotheses: runs_after_invoke and init_covered (Bind.v) *)
 
 (* ---------- splan_of, case by case ---------- *)
 Section SplanOf.
@@ -734,13 +723,14 @@ Proof.
     assert (Hf : In (fst pz) funcs) by (rewrite <- Hfst; apply in_map, Hin).
     split; [exact Hi|]. split; [|split; [exact Hf|split; [apply in_nth_opt, Hf|apply (compiled_some _ _ _ _ _ F1 pz Hpz)]]].
     rewrite Forall_forall in Hshape. apply Hshape. apply in_map, Hf. }
-  (* per-invocation providers sit from the invoke function on *)
+  (* per-invocation providers other than plain injectors sit from the invoke function on *)
   assert (Hpos : forall p, In p funcs -> p_include p = true ->
             group_eqb (p_group p) GRun || group_eqb (p_group p) GFinal = true ->
+            class_eqb (p_class p) ClInjector = false ->
             forall k, getp funcs k = Some p -> ii <= k).
-  { intros p _ Hi Hg k Hk. destruct (Nat.lt_ge_cases k ii) as [Hlt|Hge]; [exfalso|exact Hge].
+  { intros p _ Hi Hg Hnj k Hk. destruct (Nat.lt_ge_cases k ii) as [Hlt|Hge]; [exfalso|exact Hge].
     unfold runs_after_invoke in Hrai. rewrite forallb_forall in Hrai.
-    specialize (Hrai p (getp_firstn _ _ _ _ Hk Hlt)). rewrite Hi, Hg in Hrai. discriminate Hrai. }
+    specialize (Hrai p (getp_firstn _ _ _ _ Hk Hlt)). rewrite Hi, Hg, Hnj in Hrai. discriminate Hrai. }
   (* what they return has an up slot *)
   assert (Hret : forall p k t, getp funcs k = Some p -> ii <= k -> p_include p = true -> In t (pflow p FRet) ->
             exists i, su t = Some i).
@@ -811,12 +801,21 @@ Proof.
   assert (Hrun1 : forall pz, In pz inc -> group_eqb (p_group (fst pz)) GRun || group_eqb (p_group (fst pz)) GFinal = true ->
             covered_b sl errT (rpf pz) = true /\ well_classed (rpf pz) = true).
   { intros [p zero] Hpz Hg. destruct (Hinc _ Hpz) as (Hi & Hs & Hf & [k Hk] & [cc Hcc]). cbn [fst snd] in *.
-    pose proof (Hpos p Hf Hi Hg k Hk) as Hge. unfold rpf. cbn [fst snd]. split.
-    - apply (run_covered te sl p zero cc Hs Hcc Hg).
-      + intros t Ht Hn. apply (CA k p t Hk Hi Ht Hn).
-      + intros t Ht Hn. apply (CB k p t Hge Hk Hi Ht Hn).
-      + intros t Ht. apply (Hret p k t Hk Hge Hi Ht).
-    - apply (compile_run_agrees te sl p zero cc Hs Hcc Hg). }
+    unfold rpf. cbn [fst snd]. split; [|apply (compile_run_agrees te sl p zero cc Hs Hcc Hg)].
+    apply (run_covered te sl p zero cc Hs Hcc Hg).
+    - intros t Ht Hn. apply (CA k p t Hk Hi Ht Hn).
+    - destruct (class_eqb (p_class p) ClInjector) eqn:Enj.
+      + (* a plain injector receives nothing *)
+        apply class_eqb_eq in Enj. unfold shape_ok in Hs. unfold p_class in Enj. rewrite Enj in Hs.
+        apply andb_true_iff in Hs. destruct Hs as [_ Hs]. apply none_fl in Hs.
+        intros t Ht. unfold pflow, flow_of in Ht. rewrite Hs in Ht. destruct Ht.
+      + pose proof (Hpos p Hf Hi Hg Enj k Hk) as Hge. intros t Ht Hn. apply (CB k p t Hge Hk Hi Ht Hn).
+    - destruct (class_eqb (p_class p) ClInjector) eqn:Enj.
+      + (* ... and returns nothing *)
+        apply class_eqb_eq in Enj. unfold shape_ok in Hs. unfold p_class in Enj. rewrite Enj in Hs.
+        apply andb_true_iff in Hs. destruct Hs as [Hs _]. apply andb_true_iff in Hs. destruct Hs as [_ Hs]. apply none_fl in Hs.
+        intros t Ht. unfold pflow, flow_of in Ht. rewrite Hs in Ht. destruct Ht.
+      + pose proof (Hpos p Hf Hi Hg Enj k Hk) as Hge. intros t Ht. apply (Hret p k t Hk Hge Hi Ht). }
   assert (Hruns : forallb (covered_b sl errT) runs = true /\ forallb well_classed runs = true).
   { unfold runs. rewrite !forallb_app. 
     assert (Hone : forall g, (forall p, g p = true -> group_eqb (p_group p) GRun || group_eqb (p_group p) GFinal = true) ->
@@ -902,8 +901,8 @@ Qed.
 
 (* The refinement theorem without the decidable well-formedness hypothesis: every chain that binds
    runs, for every provider behaviour, world and session, exactly as the reference semantics of its
-   plan - provided only that no included per-invocation provider was placed before the invoke
-   function and that what an init function returns has slots. *)
+   plan - provided only that no included per-invocation provider other than a plain injector was placed
+   before the invoke function and that what an init function returns has slots. *)
 Theorem chain_refines_bound :
   forall (c : bcase) (pl : plan) (b : bound),
     bind_chain c = Ok (pl, b) -> runs_after_invoke pl = true -> init_covered pl = true ->
@@ -928,3 +927,347 @@ Proof.
   intros c pl b Hb H1 H2. apply (run_safe c pl b Hb). apply bind_plan_wf; assumption.
 Qed.
 Print Assumptions chain_refines_bound.
+
+(* ---------- without Reorder, per-invocation providers follow the invoke function ---------- *)
+Definition nonrun_s (s : sprov) : bool := negb (group_eqb (s_group s) GRun || group_eqb (s_group s) GFinal).
+Definition nonfinal_s (s : sprov) : bool := negb (group_eqb (s_group s) GFinal).
+
+Lemma classify_pred te reg d cc s (Q : entry -> bool) (X : predT -> bool) :
+  forallb (fun e => Q e || existsb X (e_tests e)) reg = true ->
+  (forall p, X p = true -> pred_holds te d cc p = false) ->
+  classify_in te reg d cc = Some s -> exists e, Q e = true /\ s = apply_entry te d e.
+Proof.
+  intros Hreg HX. unfold classify_in. intros H.
+  assert (Hc : classify_reg te reg d cc = Some s) by (destruct (d_shape d); try discriminate H; exact H).
+  clear H. induction reg as [|e r IH]; cbn [classify_reg] in Hc; [discriminate|].
+  cbn [forallb] in Hreg. apply andb_true_iff in Hreg. destruct Hreg as [He Hr].
+  destruct (forallb (pred_holds te d cc) (e_tests e)) eqn:Et; [|apply IH; assumption].
+  injection Hc as <-. exists e. split; [|reflexivity].
+  destruct (Q e); [reflexivity|]. cbn [orb] in He. exfalso.
+  apply existsb_exists in He. destruct He as (p & Hp & Hq).
+  rewrite forallb_forall in Et. specialize (Et _ Hp). rewrite (HX p Hq) in Et. discriminate Et.
+Qed.
+
+Lemma handler_run_unstatic :
+  forallb (fun e => negb (group_eqb (e_group e) GRun || group_eqb (e_group e) GFinal)
+                    || existsb (fun p => match p with P_unstaticOkay => true | _ => false end) (e_tests e)) handlerRegistry = true.
+Proof. vm_compute. reflexivity. Qed.
+Lemma handler_final_last :
+  forallb (fun e => negb (group_eqb (e_group e) GFinal)
+                    || existsb (fun p => match p with P_isLast => true | _ => false end) (e_tests e)) handlerRegistry = true.
+Proof. vm_compute. reflexivity. Qed.
+Lemma invoke_classes :
+  forallb (fun e => match e_class e with ClInit | ClInvoke => true | _ => false end) invokeRegistry = true.
+Proof. vm_compute. reflexivity. Qed.
+
+Lemma mustcache_nonrun te d cc s : d_mustCache d = true -> characterizeFunc te d cc = Some s -> nonrun_s s = true.
+Proof.
+  intros Hm H. destruct (classify_pred te handlerRegistry d cc s _ _ handler_run_unstatic) as (e & He & ->); [|exact H|exact He].
+  intros p Hp. destruct p; try discriminate Hp. cbn [pred_holds]. rewrite Hm. reflexivity.
+Qed.
+
+Lemma notlast_nonfinal te d s l : characterizeFunc te d (mkCC false l) = Some s -> nonfinal_s s = true.
+Proof.
+  intros H. destruct (classify_pred te handlerRegistry d (mkCC false l) s _ _ handler_final_last) as (e & He & ->); [|exact H|exact He].
+  intros p Hp. destruct p; try discriminate Hp. reflexivity.
+Qed.
+
+Lemma invoke_table_group te d cc s : characterizeInitInvoke te d cc = Some s ->
+  nonrun_s s = true /\ (is_init_s s = false -> s_class s = ClInvoke).
+Proof.
+  intros H.
+  pose proof (classify_shape te invokeRegistry d cc s invoke_entries_ok H) as Hs.
+  pose proof (classify_class te invokeRegistry d cc s (fun k => match k with ClInit | ClInvoke => true | _ => false end) invoke_classes H) as Hc.
+  cbv beta in Hc.
+  unfold shape_ok in Hs. unfold nonrun_s, is_init_s.
+  destruct (s_class s); try discriminate Hc; destruct (s_group s); try discriminate Hs; split; try reflexivity; intros; try reflexivity; discriminate.
+Qed.
+
+Lemma char_loop_nonrun te lf : forall l ns a b ra rb,
+  Forall (fun s => nonrun_s s = true) a -> char_loop te l lf ns a b = Ok (ra, rb) ->
+  Forall (fun s => nonrun_s s = true) ra.
+Proof.
+  induction l as [|d r IH]; intros ns a b ra rb Ha H; cbn [char_loop] in H.
+  - injection H as <- _. apply Forall_rev. exact Ha.
+  - destruct (char_one te d match r with [] => true | _ :: _ => false end lf ns) as [s|] eqn:E1; [|discriminate].
+    destruct (s_group s) eqn:Eg; try discriminate H; (eapply IH; [|exact H]); try exact Ha;
+      constructor; try exact Ha; unfold nonrun_s; rewrite Eg; reflexivity.
+Qed.
+
+Lemma insert_at_app {A} (x : A) : forall (P Q : list A) k, insert_at (length P + k) x (P ++ Q) = P ++ insert_at k x Q.
+Proof. induction P as [|y r IH]; intros Q k; cbn [length Nat.add app insert_at]; [reflexivity|]. rewrite IH. reflexivity. Qed.
+
+(* the assembled list: providers of the static, literal and invoke groups, then the invoke
+   function, then the rest - or a list without a final function, which never binds *)
+Lemma assemble_layout c f0 : assemble c = Ok f0 ->
+  (exists X invS Y, map p_s f0 = X ++ invS :: Y /\ Forall (fun s => nonrun_s s = true) X /\ s_class invS = ClInvoke) \/
+  Forall (fun s => nonfinal_s s = true) (map p_s f0).
+Proof.
+  unfold assemble. set (te := bc_te c).
+  destruct (characterizeInitInvoke te (bc_invoke c) (mkCC false false)) as [invS|] eqn:Einv; cbn [opt_res bindr]; [|discriminate].
+  destruct (apply_edits (bc_provs c)) as [provs|e|e]; cbn [bindr]; try discriminate.
+  destruct (characterize_and_flatten te provs (fl (f_out (s_flows invS)))) as [ba|e|e] eqn:Eba; cbn [bindr]; try discriminate.
+  destruct (characterizeFunc te (debug_pd te) (mkCC false true)) as [dbg0|] eqn:Edbg; cbn [opt_res bindr]; [|discriminate].
+  set (dbg := as_synthetic false (s_required dbg0) (s_consOpt dbg0) dbg0).
+  match goal with |- context [bindr ?IL _] => destruct IL as [il|e|e] eqn:Eil end; cbn [bindr]; try discriminate.
+  assert (Hba : Forall (fun s => nonrun_s s = true) (fst ba)).
+  { unfold characterize_and_flatten in Eba. destruct ba as [a b]. eapply char_loop_nonrun; [|exact Eba]. constructor. }
+  assert (Hdbg : nonrun_s dbg = true) by (apply (mustcache_nonrun te (debug_pd te) _ dbg0 eq_refl Edbg)).
+  assert (Hil : Forall (fun s => nonrun_s s = true) il).
+  { destruct (bc_init c) as [ipd|].
+    - destruct (characterizeInitInvoke te ipd (mkCC false true)) as [s|] eqn:Es; cbn [opt_res bindr] in Eil; [|discriminate].
+      injection Eil as <-. constructor; [apply (invoke_table_group te ipd _ s Es)|constructor].
+    - injection Eil as <-. constructor. }
+  destruct (invoke_table_group te _ _ _ Einv) as [Hinvnr Hinvc].
+  specialize (Hinvc (invoke_not_init te _ _ _ Einv)).
+  set (X0 := [dbg] ++ il ++ fst ba).
+  assert (HX0 : Forall (fun s => nonrun_s s = true) X0).
+  { unfold X0. apply Forall_app. split; [constructor; [exact Hdbg|constructor]|]. apply Forall_app. split; assumption. }
+  assert (Efuncs : [dbg] ++ il ++ fst ba ++ [invS] ++ snd ba = X0 ++ invS :: snd ba).
+  { unfold X0. rewrite <- !app_assoc. reflexivity. }
+  rewrite Efuncs.
+  match goal with |- context [bindr ?F1 _] => destruct F1 as [f1|e|e] eqn:Ef1 end; cbn [bindr]; try discriminate.
+  assert (H1 : exists X, f1 = X ++ invS :: snd ba /\ Forall (fun s => nonrun_s s = true) X).
+  { destruct (existsb _ (X0 ++ invS :: snd ba)) in Ef1.
+    - destruct (characterizeFunc te (unused_in_pd te) (mkCC false true)) as [u|] eqn:Eu; cbn [opt_res bindr] in Ef1; [|discriminate].
+      injection Ef1 as <-. exists (as_synthetic true (s_required u) (Some [te_unusedT te]) u :: X0). split; [reflexivity|].
+      constructor; [|exact HX0]. apply (mustcache_nonrun te (unused_in_pd te) _ u eq_refl Eu).
+    - injection Ef1 as <-. exists X0. split; [reflexivity|exact HX0]. }
+  destruct H1 as (X & -> & HX).
+  match goal with |- context [bindr ?F2 _] => destruct F2 as [f2|e|e] eqn:Ef2 end; cbn [bindr]; try discriminate.
+  intros H. injection H as <-. rewrite map_map. cbn [mk_prov p_s]. rewrite map_id.
+  destruct (existsb _ _) in Ef2; [|injection Ef2 as <-; left; exists X, invS, (snd ba); auto].
+  destruct (characterizeFunc te (unused_ret_pd te) (mkCC false true)) as [u|] eqn:Eu; cbn [opt_res bindr] in Ef2; [|discriminate].
+  injection Ef2 as <-. set (u' := as_synthetic true false (Some [te_unusedT te]) u).
+  destruct (snd ba) as [|y Y] eqn:Esb.
+  - (* no per-invocation provider at all: no final function *)
+    right. rewrite app_length. cbn [length]. replace (length X + 1 - 1) with (length X + 0) by lia.
+    rewrite insert_at_app. cbn [insert_at]. apply Forall_app. split.
+    + eapply Forall_impl; [|exact HX]. intros s Hs. unfold nonrun_s in Hs. unfold nonfinal_s.
+      apply negb_true_iff, orb_false_iff in Hs. destruct Hs as [_ Hs]. rewrite Hs. reflexivity.
+    + constructor; [apply (notlast_nonfinal te (unused_ret_pd te) u true Eu)|]. constructor; [|constructor].
+      unfold nonrun_s in Hinvnr. unfold nonfinal_s. apply negb_true_iff, orb_false_iff in Hinvnr. destruct Hinvnr as [_ Hs]. rewrite Hs. reflexivity.
+  - left. exists X, invS. rewrite app_length. cbn [length].
+    replace (length X + S (S (length Y)) - 1) with (length X + S (length Y)) by lia.
+    rewrite insert_at_app. cbn [insert_at]. eexists. split; [reflexivity|]. split; assumption.
+Qed.
+
+Lemma compiled_back te dn up : forall inc cps, Forall2 (compiled te dn up) inc cps ->
+  forall pc, In pc cps -> exists pz, In pz inc /\ fst pc = fst pz.
+Proof.
+  intros inc cps H. induction H as [|pz pc inc' cps' [H1 _] _ IH]; intros q Hq; [destruct Hq|].
+  destruct Hq as [<-|Hq]; [exists pz; split; [left; reflexivity|exact H1]|].
+  destruct (IH q Hq) as (z & Hz & E). exists z. split; [right; exact Hz|exact E].
+Qed.
+
+Lemma nth_opt_mapf {A B} (f : A -> B) : forall l k, nth_opt k (map f l) = option_map f (nth_opt k l).
+Proof. induction l as [|x r IH]; intros [|k]; simpl; try reflexivity. apply IH. Qed.
+
+Lemma nth_opt_app_at {A} (X : list A) x Y : nth_opt (length X) (X ++ x :: Y) = Some x.
+Proof. induction X as [|y r IH]; simpl; [reflexivity|exact IH]. Qed.
+
+Lemma nth_opt_app_lt {A} (X : list A) Y k : k < length X -> nth_opt k (X ++ Y) = nth_opt k X.
+Proof. revert k. induction X as [|y r IH]; intros k Hk; simpl in Hk; [lia|]. destruct k; simpl; [reflexivity|]. apply IH. lia. Qed.
+
+Lemma in_firstn_pos {A} (x : A) : forall n l, In x (firstn n l) -> exists k, k < n /\ nth_opt k l = Some x.
+Proof.
+  induction n as [|n IH]; intros l H; [destruct H|]. destruct l as [|y r]; [destruct H|].
+  cbn [firstn] in H. destruct H as [<-|H]; [exists 0; split; [lia|reflexivity]|].
+  destruct (IH r H) as (k & Hk & E). exists (S k). split; [lia|exact E].
+Qed.
+
+Theorem runs_after_invoke_no_reorder c pl b f0 :
+  bind_chain c = Ok (pl, b) -> assemble c = Ok f0 -> existsb is_reorder f0 = false ->
+  runs_after_invoke pl = true.
+Proof.
+  intros Hb Ha Hr. pose proof (bind_chain_plan c pl b Hb) as Hp.
+  assert (Hfuncs : map p_s (pl_funcs pl) = map p_s f0 /\ find_class ClInvoke (pl_funcs pl) 0 = Some (pl_invokeIndex pl)).
+  { unfold plan_of in Hp. rewrite Ha in Hp. cbn [bindr] in Hp.
+    assert (Er : reorder_funcs (bc_te c) f0 = Ok f0) by (unfold reorder_funcs; rewrite Hr; reflexivity).
+    rewrite Er in Hp. cbn [bindr] in Hp.
+    destruct (select (bc_te c) f0) as [funcs|e|e] eqn:Es; cbn [bindr] in Hp; try discriminate.
+    destruct (find_class ClInvoke funcs 0) as [ii|] eqn:Ei; cbn [opt_res bindr] in Hp; try discriminate.
+    destruct (negb (check_shadowing (bc_te c) funcs)); [discriminate|].
+    destruct (negb (init_bypass_ok funcs (sl_down0 (allocate_slots funcs ii)))); [discriminate|].
+    injection Hp as <-. cbn [pl_funcs pl_invokeIndex]. split; [apply (select_preserves _ _ _ Es)|exact Ei]. }
+  destruct Hfuncs as [Hs Hfc]. set (funcs := pl_funcs pl) in *. set (ii := pl_invokeIndex pl) in *.
+  destruct (assemble_layout c f0 Ha) as [(X & invS & Y & El & HX & Hc)|Hnf].
+  - rewrite <- Hs in El.
+    assert (Hii : ii <= length X).
+    { pose proof (nth_opt_app_at X invS Y) as Hn. rewrite <- El, nth_opt_mapf in Hn.
+      destruct (nth_opt (length X) funcs) as [p|] eqn:Ep; [|discriminate Hn]. cbn [option_map] in Hn. injection Hn as Hn.
+      destruct (find_class_first _ _ _ _ Hfc) as [_ Hfirst]. apply (Hfirst (length X) p Ep).
+      unfold p_class. rewrite Hn, Hc. reflexivity. }
+    unfold runs_after_invoke. fold funcs ii. apply forallb_forall. intros p Hp'.
+    destruct (in_firstn_pos p ii funcs Hp') as (k & Hk & Ek).
+    assert (Hps : nth_opt k X = Some (p_s p)).
+    { rewrite <- (nth_opt_app_lt X (invS :: Y)) by lia. rewrite <- El, nth_opt_mapf, Ek. reflexivity. }
+    rewrite Forall_forall in HX. specialize (HX (p_s p) (getp_in _ _ _ Hps)).
+    unfold nonrun_s in HX. unfold p_group. apply negb_true_iff in HX. rewrite HX. rewrite andb_false_r. reflexivity.
+  - (* no final function: the chain does not bind *)
+    exfalso. unfold bind_chain in Hb. rewrite Hp in Hb. cbn [bindr] in Hb.
+    destruct (compile_all (bc_te c) (sl_down (pl_slots pl)) (sl_up (pl_slots pl)) (sl_funcs (pl_slots pl))) as [cps|] eqn:Ec;
+      cbn [opt_res bindr] in Hb; [|discriminate].
+    destruct (of_group GFinal cps) as [|fin [|? ?]] eqn:Efin; try discriminate.
+    unfold of_group in Efin.
+    destruct (filter (fun pc : prov * cp => group_eqb (p_group (fst pc)) GFinal) cps) as [|pc rest] eqn:Ef; [discriminate|].
+    assert (Hpc : In pc cps /\ group_eqb (p_group (fst pc)) GFinal = true).
+    { assert (H : In pc (pc :: rest)) by (left; reflexivity). rewrite <- Ef in H. apply filter_In in H. exact H. }
+    destruct Hpc as [Hpc Hg].
+    destruct (compiled_back _ _ _ _ _ (compile_all_spec _ _ _ _ _ Ec) pc Hpc) as (pz & Hpz & Efst).
+    apply filter_In in Hpz. destruct Hpz as [Hpz _].
+    destruct (plan_listq c pl Hp) as (_ & Hsl & _).
+    assert (Hin : In (fst pz) funcs).
+    { unfold funcs. rewrite <- (allocate_slots_funcs (pl_funcs pl) (pl_invokeIndex pl)), <- Hsl. apply in_map, Hpz. }
+    rewrite <- Hs in Hnf. rewrite Forall_forall in Hnf. specialize (Hnf _ (in_map p_s _ _ Hin)).
+    unfold nonfinal_s in Hnf. rewrite Efst in Hg. unfold p_group in Hg. rewrite Hg in Hnf. discriminate Hnf.
+Qed.
+Print Assumptions runs_after_invoke_no_reorder.
+
+(* ---------- cases without Reorder annotations ---------- *)
+Definition nre (s : sprov) : Prop := d_reorder (s_d s) = false.
+
+Lemma classify_sd te reg d cc s : classify_in te reg d cc = Some s -> s_d s = d.
+Proof.
+  unfold classify_in. intros H.
+  assert (Hc : classify_reg te reg d cc = Some s) by (destruct (d_shape d); try discriminate H; exact H).
+  clear H. induction reg as [|e r IH]; cbn [classify_reg] in Hc; [discriminate|].
+  destruct (forallb (pred_holds te d cc) (e_tests e)); [injection Hc as <-; reflexivity|apply IH, Hc].
+Qed.
+
+Lemma char_one_sd te d l lf ns s : char_one te d l lf ns = Some s -> s_d s = d.
+Proof.
+  unfold char_one. destruct (characterizeFunc te d (mkCC l true)) as [s0|] eqn:E0; [|discriminate].
+  destruct (group_eqb (s_group s0) GStatic && existsb (tainted_in lf ns) (fl (f_in (s_flows s0)))).
+  - apply classify_sd.
+  - intros H. injection H as <-. eapply classify_sd. exact E0.
+Qed.
+
+Lemma char_loop_nre te lf : forall l ns a b ra rb,
+  (forall d, In d l -> d_reorder d = false) -> Forall nre a -> Forall nre b ->
+  char_loop te l lf ns a b = Ok (ra, rb) -> Forall nre ra /\ Forall nre rb.
+Proof.
+  induction l as [|d r IH]; intros ns a b ra rb Hl Ha Hb H; cbn [char_loop] in H.
+  - injection H as <- <-. split; apply Forall_rev; assumption.
+  - destruct (char_one te d match r with [] => true | _ :: _ => false end lf ns) as [s|] eqn:E1; [|discriminate].
+    assert (Hs : nre s) by (unfold nre; rewrite (char_one_sd _ _ _ _ _ _ E1); apply Hl; left; reflexivity).
+    assert (Hl' : forall d', In d' r -> d_reorder d' = false) by (intros d' Hd'; apply Hl; right; exact Hd').
+    destruct (s_group s); try discriminate H;
+      (eapply IH; [exact Hl'| | |exact H]); try assumption; constructor; assumption.
+Qed.
+
+Lemma split_last_final_eq : forall l pre f post, split_last_final l = Some (pre, f, post) -> l = pre ++ f :: post.
+Proof.
+  induction l as [|x r IH]; intros pre f post H; cbn [split_last_final] in H; [discriminate|].
+  destruct (split_last_final r) as [[[pre' f'] post']|] eqn:E.
+  - injection H as <- <- <-. cbn [app]. f_equal. apply IH. reflexivity.
+  - destruct (d_nonFinal x); [discriminate|]. injection H as <- <- <-. reflexivity.
+Qed.
+
+Lemma reorder_nonfinal_in l d : In d (reorder_nonfinal l) -> In d l.
+Proof.
+  unfold reorder_nonfinal. destruct (split_last_final l) as [[[pre f] post]|] eqn:E; [|auto].
+  rewrite (split_last_final_eq _ _ _ _ E). intros H. apply in_app_or in H. apply in_or_app.
+  destruct H as [H|H]; [left; exact H|]. right. apply in_app_or in H. destruct H as [H|[<-|[]]]; [right; exact H|left; reflexivity].
+Qed.
+
+Lemma apply_edits_in l r d : apply_edits l = Ok r -> In d r -> exists d0, In d0 l /\ d = erase_names d0.
+Proof.
+  unfold apply_edits. destruct (edits _) as [res|e]; [|discriminate]. intros H. injection H as <-. intros Hd.
+  apply in_map_iff in Hd. destruct Hd as (d0 & <- & Hd0). apply in_flat_map in Hd0. destruct Hd0 as (n & _ & Hn).
+  destruct (nth_opt (eid n) l) as [x|] eqn:E; [|destruct Hn]. destruct Hn as [<-|[]].
+  exists x. split; [eapply getp_in; exact E|reflexivity].
+Qed.
+
+Definition plain_case (c : bcase) : bool :=
+  forallb (fun d => negb (d_reorder d)) (bc_provs c) && negb (d_reorder (bc_invoke c)) &&
+  match bc_init c with None => true | Some _ => false end.
+
+Lemma assemble_no_reorder c f0 : assemble c = Ok f0 ->
+  forallb (fun d => negb (d_reorder d)) (bc_provs c) = true -> d_reorder (bc_invoke c) = false ->
+  (forall i, bc_init c = Some i -> d_reorder i = false) -> existsb is_reorder f0 = false.
+Proof.
+  intros Ha Hprovs Hinvk Hini.
+  assert (HF : Forall (fun p => is_reorder p = false) f0); [|].
+  2:{ destruct (existsb is_reorder f0) eqn:E; [|reflexivity]. apply existsb_exists in E. destruct E as (p & Hp & E).
+      rewrite Forall_forall in HF. rewrite (HF p Hp) in E. discriminate E. }
+  revert Ha. unfold assemble. set (te := bc_te c).
+  destruct (characterizeInitInvoke te (bc_invoke c) (mkCC false false)) as [invS|] eqn:Einv; cbn [opt_res bindr]; [|discriminate].
+  destruct (apply_edits (bc_provs c)) as [provs|e|e] eqn:Eed; cbn [bindr]; try discriminate.
+  destruct (characterize_and_flatten te provs (fl (f_out (s_flows invS)))) as [ba|e|e] eqn:Eba; cbn [bindr]; try discriminate.
+  destruct (characterizeFunc te (debug_pd te) (mkCC false true)) as [dbg0|] eqn:Edbg; cbn [opt_res bindr]; [|discriminate].
+  set (dbg := as_synthetic false (s_required dbg0) (s_consOpt dbg0) dbg0).
+  match goal with |- context [bindr ?IL _] => destruct IL as [il|e|e] eqn:Eil end; cbn [bindr]; try discriminate.
+  assert (Hba : Forall nre (fst ba) /\ Forall nre (snd ba)).
+  { unfold characterize_and_flatten in Eba. destruct ba as [a b]. eapply char_loop_nre; [| | |exact Eba]; try constructor.
+    intros d Hd. apply reorder_nonfinal_in in Hd. destruct (apply_edits_in _ _ d Eed Hd) as (d0 & Hd0 & ->).
+    cbn [erase_names d_reorder]. rewrite forallb_forall in Hprovs. apply negb_true_iff, Hprovs, Hd0. }
+  destruct Hba as [Hba1 Hba2].
+  assert (Hdbg : nre dbg) by (unfold nre, dbg; cbn [as_synthetic s_d]; rewrite (classify_sd _ _ _ _ _ Edbg); reflexivity).
+  assert (Hinv : nre invS) by (unfold nre; rewrite (classify_sd _ _ _ _ _ Einv); exact Hinvk).
+  assert (Hil : Forall nre il).
+  { destruct (bc_init c) as [ipd|] eqn:Ei.
+    - destruct (characterizeInitInvoke te ipd (mkCC false true)) as [s|] eqn:Es; cbn [opt_res bindr] in Eil; [|discriminate].
+      injection Eil as <-. constructor; [|constructor]. unfold nre. rewrite (classify_sd _ _ _ _ _ Es). apply Hini. reflexivity.
+    - injection Eil as <-. constructor. }
+  assert (Hfuncs : Forall nre ([dbg] ++ il ++ fst ba ++ [invS] ++ snd ba)).
+  { repeat (apply Forall_app; split); try assumption; constructor; try assumption; constructor. }
+  match goal with |- context [bindr ?F1 _] => destruct F1 as [f1|e|e] eqn:Ef1 end; cbn [bindr]; try discriminate.
+  assert (H1 : Forall nre f1).
+  { destruct (existsb _ _) in Ef1.
+    - destruct (characterizeFunc te (unused_in_pd te) (mkCC false true)) as [u|] eqn:Eu; cbn [opt_res bindr] in Ef1; [|discriminate].
+      injection Ef1 as <-. constructor; [|exact Hfuncs]. unfold nre. cbn [as_synthetic s_d]. rewrite (classify_sd _ _ _ _ _ Eu). reflexivity.
+    - injection Ef1 as <-. exact Hfuncs. }
+  match goal with |- context [bindr ?F2 _] => destruct F2 as [f2|e|e] eqn:Ef2 end; cbn [bindr]; try discriminate.
+  assert (H2 : Forall nre f2).
+  { destruct (existsb _ _) in Ef2.
+    - destruct (characterizeFunc te (unused_ret_pd te) (mkCC false true)) as [u|] eqn:Eu; cbn [opt_res bindr] in Ef2; [|discriminate].
+      injection Ef2 as <-. eapply Permutation_Forall; [apply Permutation_sym, insert_at_perm|].
+      constructor; [|exact H1]. unfold nre. cbn [as_synthetic s_d]. rewrite (classify_sd _ _ _ _ _ Eu). reflexivity.
+    - injection Ef2 as <-. exact H1. }
+  intros H. injection H as <-. apply Forall_map. eapply Forall_impl; [|exact H2]. intros s Hs. exact Hs.
+Qed.
+
+(* The headline: for every case without Reorder annotations and without an init function, a chain
+   that binds runs - for every provider behaviour, world and session - exactly as the reference
+   semantics of its plan.  No hypothesis is left to be validated on the case. *)
+Theorem chain_refines_plain :
+  forall (c : bcase) (pl : plan) (b : bound),
+    plain_case c = true -> bind_chain c = Ok (pl, b) ->
+    exists sp, splan_of (bc_te c) pl = Some sp /\
+    forall (W : Type) (beh_fn : nat -> W -> list val -> W * list val)
+           (beh_wrap : nat -> W -> list val -> wtree W) (steps : list step) (w0 : W),
+      let m := run_session W beh_fn beh_wrap b (mkSess W w0 (bd_base0 b) false true) steps in
+      let s := sem_session W beh_fn beh_wrap (te_errorT (bc_te c)) sp
+                           (mkSsess W w0 (base_env (pl_slots pl) (bd_base0 b)) false true) steps in
+      snd m = snd s /\ ss_w W (fst m) = sq_w W (fst s).
+Proof.
+  intros c pl b Hpc Hb. unfold plain_case in Hpc.
+  apply andb_true_iff in Hpc. destruct Hpc as [Hpc Hni]. apply andb_true_iff in Hpc. destruct Hpc as [Hprovs Hinvk].
+  apply negb_true_iff in Hinvk. destruct (bc_init c) eqn:Ei; [discriminate|].
+  pose proof (bind_chain_plan c pl b Hb) as Hp.
+  destruct (assemble c) as [f0|e|e] eqn:Ea; [|unfold plan_of in Hp; rewrite Ea in Hp; discriminate Hp..].
+  apply (chain_refines_bound c pl b Hb).
+  - apply (runs_after_invoke_no_reorder c pl b f0 Hb Ea). apply (assemble_no_reorder c f0 Ea Hprovs Hinvk).
+    intros i Hi. rewrite Ei in Hi. discriminate Hi.
+  - apply (init_covered_no_init c pl Hp Ei).
+Qed.
+Print Assumptions chain_refines_plain.
+
+Theorem run_safe_plain :
+  forall (c : bcase) (pl : plan) (b : bound),
+    plain_case c = true -> bind_chain c = Ok (pl, b) ->
+    forall (W : Type) (beh_fn : nat -> W -> list val -> W * list val)
+           (beh_wrap : nat -> W -> list val -> wtree W) (steps : list step) (w0 : W),
+      ~ In RPanic (snd (run_session W beh_fn beh_wrap b (mkSess W w0 (bd_base0 b) false true) steps)).
+Proof.
+  intros c pl b Hpc Hb. pose proof Hpc as Hpc'. unfold plain_case in Hpc.
+  apply andb_true_iff in Hpc. destruct Hpc as [Hpc Hni]. apply andb_true_iff in Hpc. destruct Hpc as [Hprovs Hinvk].
+  apply negb_true_iff in Hinvk. destruct (bc_init c) eqn:Ei; [discriminate|].
+  pose proof (bind_chain_plan c pl b Hb) as Hp.
+  destruct (assemble c) as [f0|e|e] eqn:Ea; [|unfold plan_of in Hp; rewrite Ea in Hp; discriminate Hp..].
+  apply (run_safe_bound c pl b Hb).
+  - apply (runs_after_invoke_no_reorder c pl b f0 Hb Ea). apply (assemble_no_reorder c f0 Ea Hprovs Hinvk).
+    intros i Hi. rewrite Ei in Hi. discriminate Hi.
+  - apply (init_covered_no_init c pl Hp Ei).
+Qed.
